@@ -226,10 +226,16 @@ def build(shape, side=None, n_int=6, variant=0, where=None):
     bycls = {}
     for e in range(ne):
         c = ch[e] if e < len(ch) else 0
+        if e in shape.get("nonascii", []): continue
         if c == 0:
             envs[e] = fin(Environments.from_linear_synthetic(n_int, n_actions=nact.get(e, 3), n_context_features=2, n_action_features=2, seed=11 + e + variant), e)
         else:
             bycls.setdefault(c, []).append(e)
+    for e in shape.get("nonascii", []):
+        # sparse contexts whose feature names are not ASCII, made dense with the hashing trick: where a name lands must not depend
+        # on the process that reads the environment (today such names are refused, identically everywhere)
+        ee = Environments.from_lambda(n_int, lambda i: {"gr\u00f6\u00dfe": i % 3 + 1, "f%d" % (i % 4): 1, "\u6f22": 2}, lambda i, c: [0, 1, 2], lambda i, c, a: float((a + i) % 3 == 0)).dense(16, "hashing")
+        envs[e] = fin(ee, e)
     for c, es in bycls.items():
         base = Environments.from_linear_synthetic(n_int, n_actions=nact.get(es[0], 3), n_context_features=2, n_action_features=2, seed=31 + c + variant).chunk()
         for e in es:
